@@ -1,7 +1,9 @@
 import PgFdr.Json
 import PgFdr.Model.Cli
+import PgFdr.Model.CliQuant
 import PgFdr.Driver.C07
 import PgFdr.Driver.C10
+import PgFdr.Driver.C12
 namespace PgFdr.Driver
 open Lean PgFdr
 
@@ -101,8 +103,57 @@ def handleCli (j : Json) : R Json := do
              ("tables", ofList (fun o => match o with | some t => ofTable t | none => .null) os),
              ("use_pseudo", up), ("maps", nm)])
 
+/-! ### the quantification path (`Model/CliQuant.lean`) -/
+open PgFdr.CliQuant in
+/-- `{"id","z","exp","frac","int":R|null (NaN),"silac":[R…],"tmt":[R…]}` -/
+def jcells (j : Json) : R QCells := do
+  let inten ← match jgetOpt j "int" with
+    | none => pure none
+    | some v => do pure (some (← jrat v))
+  pure { id := ← jint (← jget j "id"), charge := ← jint (← jget j "z"), experiment := ← jstr (← jget j "exp"),
+         fraction := ← jstr (← jget j "frac"), intensity := inten,
+         silac := ← jlist jrat (← jget j "silac"), tmt := ← jlist jrat (← jget j "tmt") }
+
+open PgFdr.CliQuant in
+def ofQuantPart (p : QuantPart) : Json :=
+  obj [("experiments", ofStrs p.out.experiments), ("nSilac", ofInt p.out.nSilac), ("nTmt", ofInt p.out.nTmt),
+       ("peps", ofList C12io.ofPep p.out.peps), ("cutoff", ofRat p.out.cutoff),
+       ("evidence", ofList C12io.ofRow p.rows),
+       ("leading", ofList (fun r => ofStrs r.leading) p.rows),
+       ("reported", ofGroups p.groups),
+       ("ibaq", ofList (fun kv => Json.arr #[.str kv.1, ofNat kv.2]) p.ibaq),
+       ("attached", ofList (ofList C12io.ofRow) p.out.attached),
+       ("kept", ofList ofNat (p.lines.map (·.g))),
+       ("groups", ofList C12io.ofGroup (p.lines.map (·.out)))]
+
+open PgFdr.CliQuant in
+def ofQTable (t : QTable) : Json :=
+  obj [("method", .str t.base.method), ("file", .str t.base.file), ("dir", .str t.base.dir),
+       ("pil", ofList ofPepInfo t.base.pil),
+       ("rows", ofList ofRowData t.base.rows),
+       ("records", ofList ofStrs t.records),
+       ("pass1", ofPass t.base.run.pass1),
+       ("rescue_score", ofOptRat t.base.run.rescueScore),
+       ("pass2", match t.base.run.pass2 with | none => .null | some p => ofPass p),
+       ("quant", match t.quant with | none => .null | some p => ofQuantPart p)]
+
+open PgFdr.CliQuant in
+/-- `{"op":"cli_quant", …every field of "cli"…, "do_quant":b, "skip_lfq":b, "ibaq_run_rule":b?,
+      "cells":[[{"id","z","exp","frac","int","silac","tmt"}…]…]}` (one list per `--mq_evidence` file, one entry per row)
+    → `{"err": tag|null, "tables":[null|{…as "cli"…, "records" of the table actually written,
+         "quant": null|{experiments,nSilac,nTmt,peps,cutoff,evidence,leading,reported,ibaq,attached,kept,groups}}…]}` -/
+def handleCliQuant (j : Json) : R Json := do
+  let inp ← jinput j
+  let q : QuantInput :=
+    { cli := inp, doQuant := ← boolField j "do_quant", skipLfq := ← boolField j "skip_lfq",
+      cells := (← optField j "cells" (jlist (jlist jcells))).getD [],
+      ibaqRunRule := ← boolField j "ibaq_run_rule" }
+  let (os, err) := quantOutcome q
+  pure (obj [("err", match err with | some e => .str e | none => .null),
+             ("tables", ofList (fun o => match o with | some t => ofQTable t | none => .null) os)])
+
 end CliD
 
-/-- protocol handlers of the command-line glue model (`Model/Cli.lean`) -/
-def handlersCli : List (String × (Json → R Json)) := [("cli", CliD.handleCli)]
+/-- protocol handlers of the command-line glue model (`Model/Cli.lean`, `Model/CliQuant.lean`) -/
+def handlersCli : List (String × (Json → R Json)) := [("cli", CliD.handleCli), ("cli_quant", CliD.handleCliQuant)]
 end PgFdr.Driver
